@@ -3,6 +3,7 @@
 
 use crate::elem::{val_of, El};
 use crate::interp::*;
+use minivec::IntoIter;
 use crate::script::{self, counted, It, Pred, ScriptIter};
 use crate::{tl, tp};
 
@@ -132,6 +133,59 @@ impl<T: El> Interp<T> {
           }
           None => done(None),
         }
+      }
+      "iter_views" => {
+        // IntoIter: as_slice, as_mut_slice and AsRef<[T]> are one and the same slice, len() is its length
+        argc(2)?;
+        let i = self.find(r)?;
+        let Kind::Into { it } = &mut self.slots[i].kind else { return None };
+        let res = scoped(|| {
+          let a = {
+            let s = it.as_slice();
+            (s.as_ptr() as usize, s.len())
+          };
+          let b = {
+            let s = it.as_mut_slice();
+            (s.as_ptr() as usize, s.len())
+          };
+          let c = {
+            let s: &[T] = it.as_ref();
+            (s.as_ptr() as usize, s.len())
+          };
+          (a, b, c, it.len(), it.size_hint())
+        });
+        match res {
+          Some((a, b, c, n, h)) => {
+            if a != b || a != c || a.1 != n || h != (n, Some(n)) {
+              tl!("O view-mismatch {} IntoIter views differ: as_slice={:?} as_mut_slice={:?} as_ref={:?} len={} size_hint={:?}", r, a.1, b.1, c.1, n, h);
+            }
+            done(Some(()))
+          }
+          None => done(None),
+        }
+      }
+      "clone_from_iter" => {
+        // `Clone::clone_from` on an IntoIter (the provided `*self = source.clone()` or whatever overrides it)
+        argc(3)?;
+        let i = self.find(r)?;
+        let j = self.find(t[2])?;
+        if i == j {
+          return None;
+        }
+        let n = match &self.slots[j].kind {
+          Kind::Into { it } => it.len(),
+          _ => return None,
+        };
+        if !matches!(self.slots[i].kind, Kind::Into { .. }) {
+          return None;
+        }
+        self.room(n)?;
+        let src: *const IntoIter<T> = match &self.slots[j].kind {
+          Kind::Into { it } => it as *const IntoIter<T>,
+          _ => unreachable!(),
+        };
+        let Kind::Into { it } = &mut self.slots[i].kind else { unreachable!() };
+        done(scoped(|| it.clone_from(unsafe { &*src })))
       }
       "clone_iter" => {
         argc(3)?;
